@@ -828,8 +828,7 @@ def fn_array_sort(ip, a):
     if len(a[0]) != 1 or not is_array(a[0][0]):
         raise XPError('XPTY0004', 'array:sort: array required')
     members = [list(m) for m in a[0][0][1]]
-    if len(a) >= 2 and a[1]:
-        raise Budget('sort with an explicit collation is not modelled')
+    ck = _resolve_collation(ip, a[1] if len(a) >= 2 else [])
     if len(a) == 3:
         f = _one_fn(a[2], 1)
         keys = [atomize(ip.call(f, [m])) for m in members]
@@ -838,12 +837,12 @@ def fn_array_sort(ip, a):
     order = []
     for i in range(len(members)):
         j = len(order)
-        while j > 0 and sort_key_lt(keys[i], keys[order[j - 1]]):
+        while j > 0 and sort_key_lt(keys[i], keys[order[j - 1]], ck):
             j -= 1
         order.insert(j, i)
     for i in range(len(members)):
         for j in range(i + 1, len(members)):
-            sort_key_lt(keys[i], keys[j])
+            sort_key_lt(keys[i], keys[j], ck)
     return [('A', tuple(tuple(members[i]) for i in order))]
 
 
@@ -926,10 +925,37 @@ def fn_apply(ip, a):
     return ip.call(f, [list(m) for m in members])
 
 
-def sort_key_lt(k1, k2):
-    """lexicographic `lt` on atomized key sequences (fn:sort / deep-equal rules); codepoint collation"""
+COLLATION_CODEPOINT = 'http://www.w3.org/2005/xpath-functions/collation/codepoint'
+COLLATION_HTML_ASCII = 'http://www.w3.org/2005/xpath-functions/collation/html-ascii-case-insensitive'
+_ASCII_LOWER = {cp: cp + 32 for cp in range(65, 91)}
+
+
+def collation_key(uri):
+    """string -> comparison key for the two collations modelled (F&O 5.3.1 codepoint, 5.3.4 html-ascii-case-insensitive:
+    'A'-'Z' are mapped to 'a'-'z', then code points are compared)"""
+    if uri == COLLATION_CODEPOINT:
+        return None
+    if uri == COLLATION_HTML_ASCII:
+        return lambda v: v.translate(_ASCII_LOWER)
+    raise XPError('FOCH0002', f'unsupported collation {uri}')
+
+
+def _resolve_collation(ip, seq):
+    """$collation as xs:string?: the empty sequence means the default collation of the static context"""
+    if not seq:
+        return collation_key(ip.default_collation)
+    return collation_key(as_string_arg(seq)[1])
+
+
+def sort_key_lt(k1, k2, ck=None):
+    """lexicographic `lt` on atomized key sequences (fn:sort / deep-equal rules); strings through the collation key"""
     for x, y in zip(k1, k2):
         x, y = _untyped_as_string(x), _untyped_as_string(y)
+        if ck is not None:
+            if x[0] in 'sa':
+                x = (x[0], ck(x[1]))
+            if y[0] in 'sa':
+                y = (y[0], ck(y[1]))
         if is_nan(x) and is_nan(y):
             continue
         if is_nan(x):
@@ -947,8 +973,7 @@ def sort_key_lt(k1, k2):
 
 def fn_sort(ip, a):
     seq = a[0]
-    if len(a) >= 2 and a[1]:
-        raise Budget('sort with an explicit collation is not modelled')
+    ck = _resolve_collation(ip, a[1] if len(a) >= 2 else [])
     if len(a) == 3:
         f = _one_fn(a[2], 1)
         keys = [atomize(ip.call(f, [[it]])) for it in seq]
@@ -958,13 +983,13 @@ def fn_sort(ip, a):
     order = []
     for i in range(len(seq)):
         j = len(order)
-        while j > 0 and sort_key_lt(keys[i], keys[order[j - 1]]):
+        while j > 0 and sort_key_lt(keys[i], keys[order[j - 1]], ck):
             j -= 1
         order.insert(j, i)
     # every pair must be comparable (the spec raises XPTY0004 otherwise) - check all pairs
     for i in range(len(seq)):
         for j in range(i + 1, len(seq)):
-            sort_key_lt(keys[i], keys[j])
+            sort_key_lt(keys[i], keys[j], ck)
     return [seq[i] for i in order]
 
 
@@ -993,8 +1018,9 @@ BUILTINS = {
 # the evaluator
 # --------------------------------------------------------------------------
 class Interp:
-    def __init__(self, version='31', budget=20000):
+    def __init__(self, version='31', budget=20000, default_collation=COLLATION_CODEPOINT):
         self.version = version
+        self.default_collation = default_collation
         self.steps = 0
         self.budget = budget
         self.order_dependent = False      # an implementation-dependent order was produced somewhere
@@ -1682,6 +1708,12 @@ def self_test():
     assert val(['map', ['nodes', 'a'], ['call', 'name', []]]) == strs('a', 'a', 'a')
     assert val(['call', 'sort', [['seq', ['uri', 'b'], ['str', 'a'], ['unt', 'c']]]]) == [['s', 'a'], ['a', 'b'], ['u', 'c']]
     assert val(['call', 'array:sort', [['array', [['int', 3], ['int', 1], ['int', 2]]]]]) == [['A', [[['i', 1]], [['i', 2]], [['i', 3]]]]]
+    mixed = _S('b', 'A', 'a', 'B', '_', 'Z')
+    assert val(['call', 'sort', [mixed]]) == strs('A', 'B', 'Z', '_', 'a', 'b')
+    assert val(['call', 'sort', [mixed, ['str', COLLATION_HTML_ASCII]]]) == strs('_', 'A', 'a', 'b', 'B', 'Z')
+    ipc = Interp(default_collation=COLLATION_HTML_ASCII)
+    assert canon_seq(ipc.run(['call', 'sort', [mixed, ['empty'], ['inline', ['x'], ['var', 'x']]]])) == strs('_', 'A', 'a', 'b', 'B', 'Z')
+    assert canon_seq(ipc.run(['call', 'sort', [mixed, ['str', COLLATION_CODEPOINT]]])) == strs('A', 'B', 'Z', '_', 'a', 'b')
     assert render(['filter', ['var', 'x'], ['int', 1]]) == '$x[1]'
     assert render(['filter', ['int', 3], ['int', 1]]) == '(3)[1]'
     assert render(['dyn', ['inline', [], ['int', 1]], []]) == '(function() { 1 })()'
